@@ -65,7 +65,7 @@ func (pass *PrefixEnumValues) processEnum(parentName string, def ast.Type) ast.T
 }
 
 func (pass *PrefixEnumValues) enumMemberNameFromValue(member ast.EnumValue) string {
-	if member.Type.Scalar.ScalarKind == ast.KindString && member.Value.(string) == "" {
+	if value, ok := member.Value.(string); ok && member.Type.Scalar.ScalarKind == ast.KindString && value == "" {
 		return "None"
 	}
 
